@@ -304,25 +304,17 @@ Definition C02_proved : Prop :=
   C02_rmw_effect /\ C02_encode_value /\ C02_build_once /\ C02_layout /\ C02_fragments /\ C02_applied_once
   /\ C02_value /\ C02_array /\ C02_string /\ C02_bool /\ C02_bits /\ C02_bools /\ C02_bool_element /\ C02_frame.
 
-(* full strength: also whole structures given as dicts, and a one-element slice of a BOOL array
-   `arr[i]{1}` written with a one-item list, whatever the item (statements in Proofs/WriteFull.v) *)
-Definition C02_full : Prop := C02_proved /\ stmt_struct /\ stmt_bool_slice1 (fun _ => false).
-
-(* The faithful model FALSIFIES it: write(('bools[1]{1}', [False])).  The request is planned as a bit
-   write and ReadModifyWriteRequestPacket.set_bit tests `if value:` on the LIST: [False] is truthy, the
-   bit is SET and the write is reported successful (reproduced on the implementation: known_findings/C02.jsonl,
-   corpus/C02/09-bool-array-one-element-list.json; repair: proposed_fixes/C02-bool-array-one-element-list.diff). *)
-Theorem C02_full_refuted : ~ C02_full.
-Proof. intros (_ & _ & H). exact (stmt_bool_slice1_refuted H). Qed.
-Print Assumptions C02_full_refuted.
-
-(* the exact excluded class: the single item of the list is False *)
-Definition C02_guard (item : bool) : bool := negb item.
-Theorem C02_guarded : stmt_bool_slice1 C02_guard.
+(* a one-element slice of a BOOL array `arr[i]{1}` written with a one-item list, whatever the item
+   (refuted before pycomm3 4698d97: set_bit tested the truthiness of the LIST) *)
+Definition C02_bool_slice1 : Prop := stmt_bool_slice1.
+Theorem C02_bool_slice1_holds : C02_bool_slice1.
 Proof. exact write_correct_bool_slice1. Qed.
-Print Assumptions C02_guarded.
+Print Assumptions C02_bool_slice1_holds.
 
-(* PARTIAL: what is proved besides C02_guarded.  Still missing from C02_full (under the guard):
+(* full strength: also whole structures given as dicts (statement in Proofs/WriteFull.v) *)
+Definition C02_full : Prop := C02_proved /\ C02_bool_slice1 /\ stmt_struct.
+
+(* PARTIAL: what is proved (and C02_bool_slice1_holds).  Still missing from C02_full:
    [stmt_struct]: a whole structure given as a dict (StructTag._encode = Spec encode_members_with, by
      induction over template nesting, with hosts preceding their bit members and REAL members
      round-tripping through binary64); with it arrays of structures / of strings.  Structures given as
